@@ -53,6 +53,9 @@ static const int NS[] = {1, 2, 3, 5, 16};
 // call sites: this translation unit and a second one (knob_tu2.cpp); both expand the header's inline function
 void knob_set_from_tu2(std::size_t n);
 __attribute__((flatten)) static void knob_set_from_tu1(std::size_t n) { parmcb::set_global_tbb_concurrency(n); }
+// the same call with the number held in other integral types (what a caller that parsed it from a command line has)
+__attribute__((flatten)) static void knob_set_int(int n) { parmcb::set_global_tbb_concurrency(n); }
+__attribute__((flatten)) static void knob_set_unsigned(unsigned n) { parmcb::set_global_tbb_concurrency(n); }
 #endif
 
 static long active() { return (long) tbb::global_control::active_value(tbb::global_control::max_allowed_parallelism); }
@@ -77,16 +80,19 @@ int main(int argc, char **argv) {
     int L = (int) A.geti("len", 2);
     // enumerate sequences
     std::vector<std::vector<int>> seqs;
-    // a call is (value n, call site): encoded n*4 + site; site 0 = this translation unit on the main thread (printed "n"),
+    // a call is (value n, call site): encoded n*8 + site; site 0 = this translation unit on the main thread (printed "n"),
     // 1 = the second translation unit on the main thread ("n@2"), 2 = this translation unit on a fresh thread that ends
-    // right after the call ("n@t") - the limit is a property of the process, whoever sets it
-    for (int len = 1; len <= L; ++len) { uint64_t tot = 1; for (int i = 0; i < len; ++i) tot *= 15; for (uint64_t x = 0; x < tot; ++x) { std::vector<int> s; uint64_t y = x; for (int i = 0; i < len; ++i) { s.push_back(NS[(y % 15) / 3] * 4 + (int) (y % 3)); y /= 15; } seqs.push_back(s); } }
-    auto cs_of = [&](const std::vector<int> &s, int upto) { std::string c = "mode=lib;calls="; for (int i = 0; i <= upto && i < (int) s.size(); ++i) c += (i ? "," : "") + std::to_string(s[i] / 4) + (s[i] % 4 == 1 ? "@2" : s[i] % 4 == 2 ? "@t" : ""); return c; };
+    // right after the call ("n@t"), 3 / 4 = the number passed as an int / unsigned instead of a std::size_t ("n@i", "n@u")
+    // - the limit is a property of the process, whoever sets it and however the number is held
+    for (int len = 1; len <= L; ++len) { uint64_t tot = 1; for (int i = 0; i < len; ++i) tot *= 25; for (uint64_t x = 0; x < tot; ++x) { std::vector<int> s; uint64_t y = x; for (int i = 0; i < len; ++i) { s.push_back(NS[(y % 25) / 5] * 8 + (int) (y % 5)); y /= 25; } seqs.push_back(s); } }
+    auto cs_of = [&](const std::vector<int> &s, int upto) { std::string c = "mode=lib;calls="; for (int i = 0; i <= upto && i < (int) s.size(); ++i) c += (i ? "," : "") + std::to_string(s[i] / 8) + (s[i] % 8 == 1 ? "@2" : s[i] % 8 == 2 ? "@t" : s[i] % 8 == 3 ? "@i" : s[i] % 8 == 4 ? "@u" : ""); return c; };
     auto one = [&](const std::vector<int> &s) {
         for (size_t i = 0; i < s.size(); ++i) {
             R.crumb_text(cs_of(s, (int) i));
-            const int n = s[i] / 4, where = s[i] % 4;
-            if (where == 1) knob_set_from_tu2((std::size_t) n);
+            const int n = s[i] / 8, where = s[i] % 8;
+            if (where == 3) knob_set_int(n);
+            else if (where == 4) knob_set_unsigned((unsigned) n);
+            else if (where == 1) knob_set_from_tu2((std::size_t) n);
             else if (where == 2) { std::thread t([n]() { knob_set_from_tu1((std::size_t) n); }); t.join(); }
             else knob_set_from_tu1((std::size_t) n);
             long a = active();
@@ -106,12 +112,12 @@ int main(int argc, char **argv) {
         std::list<std::list<boost::graph_traits<G>::edge_descriptor>> cycles;
         double wgt = parmcb::mcb_sva_signed_tbb(g, boost::get(boost::edge_weight, g), std::back_inserter(cycles));
         long a = active();
-        if (a != s.back() / 4 || wgt != 9) R.violation({"set_global_tbb_concurrency", "knob-lost", cs_of(s, (int) s.size()) + ";then=mcb_sva_signed_tbb", "after a following library call the allowed parallelism is " + std::to_string(a) + " (weight " + std::to_string(wgt) + ")"});
+        if (a != s.back() / 8 || wgt != 9) R.violation({"set_global_tbb_concurrency", "knob-lost", cs_of(s, (int) s.size()) + ";then=mcb_sva_signed_tbb", "after a following library call the allowed parallelism is " + std::to_string(a) + " (weight " + std::to_string(wgt) + ")"});
         R.count(C_EVAL); R.count(C_NONTRIV); R.count(C_STATES, s.size() + 1);
     };
     if (A.has("replay-case")) {
         std::vector<int> s; std::string c = A.get("replay-case"); auto p = c.find("calls="); std::string cl = c.substr(p + 6); auto sc = cl.find(';'); if (sc != std::string::npos) cl = cl.substr(0, sc);
-        for (auto &t : vr::split(cl, ',')) s.push_back(atoi(t.c_str()) * 4 + (t.find("@2") != std::string::npos ? 1 : t.find("@t") != std::string::npos ? 2 : 0));
+        for (auto &t : vr::split(cl, ',')) s.push_back(atoi(t.c_str()) * 8 + (t.find("@2") != std::string::npos ? 1 : t.find("@t") != std::string::npos ? 2 : t.find("@i") != std::string::npos ? 3 : t.find("@u") != std::string::npos ? 4 : 0));
         R.worker_id = 0; one(s); if (R.vf) fclose(R.vf);
         uint64_t nv = R.sh->nviol.load(); std::string fn = R.viol_prefix + ".0";
         if (FILE *f = fopen(fn.c_str(), "r")) { char buf[4096]; while (fgets(buf, sizeof buf, f)) fputs(buf, stdout); fclose(f); unlink(fn.c_str()); }
